@@ -38,7 +38,9 @@ CMENU = [{'s': 'pass', 'ctc': 0}, {'s': 'fail', 'ctc': 0}, {'s': 'pass', 'ctc': 
 # is latin-1 (a legacy locale, PYTHONIOENCODING)
 LMENU = [{'s': 'fail', 'mn': 'caf\xe9'}, {'s': 'error', 'mn': 'gr\xf6\xdfe'}]
 SMENU = [{'s': 'fail', 'strv': '7 0 0'}, {'s': 'error', 'strv': '12 0 0'}, {'s': 'fail', 'strv': 'two  blanks   inside (x)'}]
-HMENU = [{'s': 'sub:1,1,0', 'subm': 'page one\x0cpage two\u2028three\x85four\x1cfive\x0bsix'}]
+HMENU = [{'s': 'sub:1,1,0', 'subm': 'page one\x0cpage two\u2028three\x85four\x1cfive\x0bsix'},
+         # a lone surrogate: what os.listdir() makes of a file name that is not UTF-8
+         {'s': 'sub:1,1,0', 'subm': 'caf\udce9.txt'}]
 DMENU = [{'dt': 'string', 's': 'fail', 'dk': 'diff'}, {'dt': 'file', 's': 'fail', 'dk': 'exc'},
          {'dt': 'string', 's': 'pass'}, {'dt': 'file', 's': 'pass'}]
 MODEARGS = {'seq': [], 'j2': ['-j2'], 'j3': ['-j3'], 'j20': ['-j20'],
@@ -264,6 +266,10 @@ def run_case(case):
         etests = collections.Counter({ow.asciify(k): v for k, v in etests.items()})
         truth.fail = collections.Counter({ow.asciify(k): v for k, v in truth.fail.items()})
         truth.err = collections.Counter({ow.asciify(k): v for k, v in truth.err.items()})
+    # a lone surrogate cannot travel through a UTF-8 pipe or be printed:
+    # its backslash-escaped spelling is the same name
+    _bs = lambda c: collections.Counter({k.encode('utf-8', 'backslashreplace').decode('utf-8'): n for k, n in c.items()})  # noqa: E731
+    ftests, etests, truth.fail, truth.err = _bs(ftests), _bs(etests), _bs(truth.fail), _bs(truth.err)
     if ftests != truth.fail or flayers or fsubs or fother:
         V('failure_list', 'Runner.failures=%s really failed=%s' % (res.failures, dict(truth.fail)))
     if etests != truth.err or esubs or eother:
@@ -275,7 +281,7 @@ def run_case(case):
         text = runrt.strip_ansi(res.out_own.decode('utf-8', 'replace'))
         for hdr, lst in (('Tests with failures:', res.failures), ('Tests with errors:', res.errors)):
             names = runrt.parse_name_list(text, hdr)
-            if (names or []) != list(lst or []):
+            if (names or []) != [x.encode('utf-8', 'backslashreplace').decode('utf-8') for x in (lst or [])]:
                 V('printed_name_list', '%s printed %s, runner holds %s' % (hdr, names, lst))
     nt = bool(kinds or lf or bm)
     return {'nontrivial': nt, 'violations': viol,
